@@ -121,7 +121,35 @@ func (g *c11Gen) action() {
 	x := g.names[g.pick("x", len(g.names))]
 	y := g.names[g.pick("y", len(g.names))]
 	lx := g.vars[x]
-	switch g.pick("action", 16) {
+	switch g.pick("action", 18) {
+	case 16: // grow far beyond a handful of elements, across the sizes at which a growing buffer is usually reallocated
+		n := []int{7, 8, 9, 15, 16, 17, 31, 32, 33, 63, 64, 65, 100, 255, 256, 257}[g.pick("bulk", 16)]
+		g.nextID++
+		nl := &gList{id: g.nextID, elems: append([]gElem{}, lx.elems...)}
+		for i := 0; i < n; i++ {
+			nl.elems = append(nl.elems, gElem{n: -1})
+		}
+		g.vars[x] = nl
+		g.w("%s (%s i = 0; i < %d; i = i + 1) { %s = %s(%s, i * 3); }", bn.KwFor, bn.KwVar, n, x, bn.BPush, x)
+		g.w("%s %s[%s(%s) - 1];", bn.KwPrint, x, bn.BLen, x)
+		return
+	case 17: // shrink from either end until few elements are left: an array that was longer before
+		if len(lx.elems) < 3 {
+			g.w("%s %s;", bn.KwPrint, x)
+			return
+		}
+		keep := 1 + g.pick("keep", 2)
+		g.nextID++
+		nl := &gList{id: g.nextID}
+		if g.pick("fromFront", 2) == 0 {
+			nl.elems = append(nl.elems, lx.elems[len(lx.elems)-keep:]...)
+			g.w("%s (%s(%s) > %d) { %s = %s(%s, 0); }", bn.KwWhile, bn.BLen, x, keep, x, bn.BRemove, x)
+		} else {
+			nl.elems = append(nl.elems, lx.elems[:keep]...)
+			g.w("%s (%s(%s) > %d) { %s = %s(%s, %s(%s) - 1); }", bn.KwWhile, bn.BLen, x, keep, x, bn.BRemove, x, bn.BLen, x)
+		}
+		g.vars[x] = nl
+		return
 	case 0: // fresh literal
 		l, txt := g.newList(g.pick("len", 6), true)
 		g.vars[x] = l
@@ -349,7 +377,7 @@ func (c *Ctx) c11Program(s *Sub, sub, src string, nt bool, labels ...string) {
 	}
 }
 
-var c11Small = map[string]int{"valKind": 2, "oddVal": 2, "x": 2, "y": 2, "nested": 1, "sublen": 1, "len": 2, "index": 2, "viaLen": 1, "lenuse": 4, "extras": 2, "drop": 1}
+var c11Small = map[string]int{"bulk": 2, "keep": 1, "fromFront": 2, "valKind": 2, "oddVal": 2, "x": 2, "y": 2, "nested": 1, "sublen": 1, "len": 2, "index": 2, "viaLen": 1, "lenuse": 4, "extras": 2, "drop": 1}
 
 func withSmall(over map[string]int, f func()) {
 	saved := map[string]int{}
@@ -420,6 +448,10 @@ func TestC11(t *testing.T) {
 		if c.Thorough {
 			n = 30000
 		}
+		c.Rapid("self-containing-unprinted", n/4, func(rt *rapid.T, s *Sub) {
+			src, nt := cyclicProgram(rt, false)
+			c.c11Program(s, "self-containing-unprinted", src, nt, "cyclic-arrays")
+		})
 		c.Rapid("rand-histories", n, func(rt *rapid.T, s *Sub) {
 			g := &c11Gen{pick: func(label string, n int) int { return rapid.IntRange(0, n-1).Draw(rt, label) }}
 			fault := -1
